@@ -85,7 +85,7 @@ Fixpoint multiset_eqb (a b : list bytes) : bool :=
 Section WithTab.
 Variable tab : dtab.
 
-Notation step := (tstep (Dtab tab) gen_fs_commit gen_key_len gen_key_ranges).
+Notation step := (tstep (Dtab tab) true gen_fs_commit gen_key_len gen_key_ranges).
 
 Definition fault_here (faultat : option sk) (t : thr) : bool :=
   match faultat, cont t with
@@ -156,27 +156,29 @@ Definition check_fs_hist (ops : list fop) (obs : list fobs) (keys : list key) (n
     entry for a thread waiting in [Read] lets that call return (the thread
     then runs on until its next [Read], or to the end of [Create]). *)
 
-Notation sstep := (sys_step (Dtab tab) gen_fs_commit gen_key_len gen_key_ranges).
+(** [excl = false]: the threads work through several store objects on the same
+    directory, so that Lock excludes nobody *)
+Notation sstep excl := (sys_step (Dtab tab) excl gen_fs_commit gen_key_len gen_key_ranges).
 
 Definition head_is_tee (t : thr) : bool :=
   match cont t with SkTeeHash :: _ => true | _ => false end.
 Definition thr_done (t : thr) : bool :=
   match cont t with [] => true | _ => false end.
 
-Fixpoint settle (fuel : nat) (s : sys) (tid : nat) : sys :=
+Fixpoint settle (excl : bool) (fuel : nat) (s : sys) (tid : nat) : sys :=
   match fuel with
   | O => s
   | S f =>
       match nth_error (sthr s) tid with
       | Some t => if head_is_tee t || thr_done t then s
-                  else settle f (sstep s (tid, false)) tid
+                  else settle excl f (sstep excl s (tid, false)) tid
       | None => s
       end
   end.
 
-Definition advance (s : sys) (tid : nat) : sys :=
+Definition advance (excl : bool) (s : sys) (tid : nat) : sys :=
   match nth_error (sthr s) tid with
-  | Some t => settle 24 (if head_is_tee t then sstep s (tid, false) else s) tid
+  | Some t => settle excl 24 (if head_is_tee t then sstep excl s (tid, false) else s) tid
   | None => s
   end.
 
@@ -190,16 +192,16 @@ Definition check_snap (s : sys) (sn : snap) : bool :=
      fobs_eqb (match fs_open gen_key_len gen_key_ranges (sfs s) (fst p) with
                | OFound c => FoFound c | ONotFound => FoNotFound end) (snd p)) probes.
 
-Fixpoint check_sched_steps (s : sys) (steps : list (nat * snap)) : bool * sys :=
+Fixpoint check_sched_steps (excl : bool) (s : sys) (steps : list (nat * snap)) : bool * sys :=
   match steps with
   | [] => (true, s)
   | (tid, sn) :: r =>
-      let s' := advance s tid in
-      if check_snap s' sn then check_sched_steps s' r else (false, s')
+      let s' := advance excl s tid in
+      if check_snap s' sn then check_sched_steps excl s' r else (false, s')
   end.
 
-Definition check_sched (scripts : list script) (steps : list (nat * snap)) (results : list fobs) : bool :=
-  let '(ok, s) := check_sched_steps (init_sys gen_fs_create [] scripts) steps in
+Definition check_sched (two : bool) (scripts : list script) (steps : list (nat * snap)) (results : list fobs) : bool :=
+  let '(ok, s) := check_sched_steps (negb two) (init_sys gen_fs_create [] scripts) steps in
   ok && all2 fobs_eqb (map (fun t => obs_of_res (res t)) (sthr s)) results.
 
 (** ** fs store, free-running goroutines: results and final directory are
@@ -325,7 +327,7 @@ End WithTab.
 
 Inductive ccase :=
 | CFsHist (tab : dtab) (ops : list fop) (obs : list fobs) (keys : list key) (ntmp : N)
-| CSched (tab : dtab) (scripts : list script) (steps : list (nat * snap)) (results : list fobs)
+| CSched (tab : dtab) (two : bool) (scripts : list script) (steps : list (nat * snap)) (results : list fobs)
 | CFree (tab : dtab) (scripts : list script) (results : list fobs) (keys : list key) (ntmp : N)
         (opens : list (key * fobs))
 | CMemHist (tab : dtab) (ops : list hop) (obs : list fobs)
@@ -335,7 +337,7 @@ Inductive ccase :=
 Definition check_case (c : ccase) : bool :=
   match c with
   | CFsHist tab ops obs keys ntmp => check_fs_hist tab ops obs keys ntmp
-  | CSched tab scripts steps results => check_sched tab scripts steps results
+  | CSched tab two scripts steps results => check_sched tab two scripts steps results
   | CFree tab scripts results keys ntmp opens => check_free tab scripts results keys ntmp opens
   | CMemHist tab ops obs => check_mem_hist tab ops obs
   | CCr tab want n s trace => check_cr tab want n s trace
